@@ -330,6 +330,9 @@ Definition C13_commit (r_blind : bool) (g : cfg) (sg : seg) (sn : snap) : bool :
   (* no transaction record unless something versioned (exclusion as configured) changed *)
   (sg_modified sg || sg_manual sg || match sg_allowed sg with [] => false | _ => true end ||
    match new_txs sg sn with [] => true | _ => false end) &&
+  (* an excluded many-to-many relationship has no counterpart in the version schema: no association-version row of a
+     table that is not versioned by configuration (the harness reports such rows under table ids >= 100) *)
+  forallb (fun a => a_tab a <? 100) (sn_av sn) &&
   (* stored data has exactly one value per non-excluded non-key column *)
   forallb (fun r => existsb (fun cc => (Z.to_nat (k_tab cc) =? tab_cls (vkey r))%nat &&
                                        (length (vdat r) =? length (filter (fun b => b) (dat_flags cc)))%nat)
